@@ -32,6 +32,9 @@ Definition run_lt (h x : issue) : bool :=     (* same run and h sorts before x *
   match h, x with
   | IUnused r n, IUnused r' n' => (r =? r') && str_ltb n n'
   | IDangling r n, IDangling r' n' => (r =? r') && str_ltb n n'
+  | IIdColl _ x, IIdColl _ x' => str_ltb x x'      (* dict order of a validator's table in finalize() *)
+  | ITitle _ x, ITitle _ x' => str_ltb x x'
+  | IFile _ x, IFile _ x' => str_ltb x x'
   | _, _ => false
   end.
 
@@ -41,7 +44,22 @@ Fixpoint insert_run (x : issue) (l : list issue) : list issue :=
   | h :: t => if run_lt h x then h :: insert_run x t else x :: h :: t
   end.
 
-Definition canon (l : list issue) : list issue := fold_right insert_run [] l.
+(* a reported group is a set of rules: its members are listed in ascending order on both sides *)
+Fixpoint insertN (x : N) (l : list N) : list N :=
+  match l with
+  | [] => [x]
+  | h :: t => if h <? x then h :: insertN x t else x :: h :: t
+  end.
+Definition sortN (l : list N) : list N := fold_right insertN [] l.
+Definition canon_group (i : issue) : issue :=
+  match i with
+  | IIdColl ks x => IIdColl (sortN ks) x
+  | ITitle ks x => ITitle (sortN ks) x
+  | IFile ks x => IFile (sortN ks) x
+  | _ => i
+  end.
+
+Definition canon (l : list issue) : list issue := map canon_group (fold_right insert_run [] l).
 
 Definition oissues_eqb (a b : outcome (list issue)) : bool :=
   match a, b with
